@@ -96,6 +96,17 @@ def make_frame(case):
         df = df.drop(columns=['Duration'])
     if case['extras'].get('extra_col'):
         df['Comment'] = ['c%d' % i for i in range(len(df))]
+    # row labels as left behind by shuffling / filtering / concatenating frames
+    ix = case['extras'].get('index', 'range')
+    if ix == 'reversed':
+        df.index = list(range(len(df)))[::-1]
+    elif ix == 'shuffled':
+        df.index = [(7 * i + 3) % len(df) for i in range(len(df))] \
+            if len(df) % 7 else list(range(len(df)))[::-1]
+    elif ix == 'gaps':
+        df.index = [3 * i + 5 for i in range(len(df))]
+    elif ix == 'dup':
+        df.index = [i % 2 for i in range(len(df))]
     keys = {}
     if case['extras'].get('custom_keys'):
         ren = {'ID': 'Subject', 'Time': 'T', 'Observable': 'What', 'Value': 'Y',
@@ -158,12 +169,34 @@ def build_prior(n):
         pints.GaussianLogPrior(1.0 + 0.05 * i, 3.0) for i in range(n)])
 
 
+def name_covariates(pop, reverse=False):
+    """Distinct covariate names, given to the covariate sub-models themselves (a
+    composed model numbers each sub-model's covariates from 1). reverse: the names
+    are handed out from the last one."""
+    total = pop.n_covariates()
+    labels = ['cv%d' % j for j in range(total)]
+    if reverse:
+        labels = labels[::-1]
+    k = 0
+    for sub in pop.get_population_models():
+        n = sub.n_covariates()
+        if n:
+            sub.set_covariate_names(labels[k:k + n])
+            k += n
+
+
 def controller_posterior(case, df, keys):
     m, oo = mech_model(case)
     c = chi.ProblemModellingController(m, error_models(case))
+    if case.get('fix_before_data'):
+        # parameters are fixed before the data are given
+        names0 = c.get_parameter_names()
+        c.fix_parameters({names0[i]: v for i, v in case['fix']})
     cov_dict = None
     if case.get('pop') is not None:
-        pop = popbuild.build(case['pop'], None)
+        pop = popbuild.build(case.get('earlier_pop') or case['pop'], None)
+        if case.get('earlier_pop') is not None:
+            name_covariates(pop)
         if rp.n_cov(case['pop']):
             cov_dict = {n: cn for n, cn in zip(pop.get_covariate_names(),
                                                case['cov_names'])}
@@ -179,7 +212,18 @@ def controller_posterior(case, df, keys):
                            **keys)
     else:
         c.set_data(df, output_observable_dict=oo, **keys)
-    if case.get('fix'):
+    if case.get('earlier_pop') is not None:
+        # another population model (other roles for the same covariates) was in
+        # place and a posterior was taken before the final one is set
+        c.set_log_prior(build_prior(c.get_n_parameters()))
+        c.get_log_posterior()
+        pop2 = popbuild.build(case['pop'], None)
+        name_covariates(pop2, reverse=bool(case.get('final_cov_reversed')))
+        c.set_population_model(pop2)
+        if cov_dict and case.get('resend_data', True):
+            c.set_data(df, output_observable_dict=oo, covariate_dict=cov_dict,
+                       **keys)
+    if case.get('fix') and not case.get('fix_before_data'):
         names = c.get_parameter_names()
         c.fix_parameters({names[i]: v for i, v in case['fix']})
     c.set_log_prior(build_prior(c.get_n_parameters()))
@@ -221,11 +265,14 @@ def hand_posterior(case, individual=None):
         ll = lls[k]
         return chi.LogPosterior(ll, build_prior(ll.n_parameters()))
     pop = popbuild.build(case['pop'], None)
+    if case.get('earlier_pop') is not None:
+        name_covariates(pop, reverse=bool(case.get('final_cov_reversed')))
     pop.set_dim_names(bnames)
     cov = None
     if rp.n_cov(case['pop']):
-        cov = np.array([[ind['cov'][cn] for cn in case['cov_names']]
-                        for ind in inds])
+        cnames = case['cov_names'][::-1] if case.get('final_cov_reversed') \
+            else case['cov_names']
+        cov = np.array([[ind['cov'][cn] for cn in cnames] for ind in inds])
     if fix:
         pop.set_n_ids(len(inds))
         pop = chi.ReducedPopulationModel(pop)
@@ -463,6 +510,54 @@ def build(tier, seed):
                         if not direct:
                             c['pop'] = None
                         dose_cases.append(c)
+    # row labels other than 0..n-1
+    for ix in ('reversed', 'shuffled', 'gaps', 'dup'):
+        for model, pop in (('toy2', None), ('toy1', pops['toy1'][2]),
+                           ('lib1', None)):
+            ncov = rp.n_cov(pop) if pop is not None else 0
+            for n in (2, 3):
+                inds = individuals(n, model == 'toy2', model == 'lib1', ncov > 0,
+                                   seed)
+                for (bo, it) in orders(n, 'quick')[::2]:
+                    meta.append({'model': model, 'inds': inds, 'id_type': 'int',
+                                 'block_order': bo, 'interleave': it,
+                                 'dosing': model == 'lib1',
+                                 'extras': {'index': ix, 'duration_column': True},
+                                 'pop': pop, 'cov_names': ['age', 'wt'][:ncov],
+                                 'seed': seed})
+    # an earlier population model using the same covariates in other roles, with a
+    # posterior taken before the final model is set
+    twocov = rp.Comp([rp.Cov(rp.LN(1), 1), rp.Cov(rp.G(1), 1), rp.P(1)])
+    swapped = rp.Comp([rp.Cov(rp.G(1), 1), rp.Cov(rp.LN(1), 1), rp.P(1)])
+    for first, final in ((twocov, swapped), (swapped, twocov),
+                         (pops['toy1'][2], twocov)):
+        for n in (2, 3):
+            inds = individuals(n, False, False, True, seed)
+            hier_cases.append({
+                'model': 'toy1', 'inds': inds, 'id_type': 'int',
+                'block_order': list(range(n)), 'interleave': 'grouped',
+                'dosing': False, 'extras': {}, 'pop': final,
+                'earlier_pop': first, 'cov_names': ['age', 'wt'],
+                'fix': None, 'pop_first': True, 'seed': seed})
+            c_ = dict(hier_cases[-1])
+            # (the covariate names are the same: the data need not be given again)
+            c_['resend_data'] = False
+            hier_cases.append(c_)
+            # ... and the final model uses the two covariates in swapped roles
+            c2_ = dict(c_)
+            c2_['final_cov_reversed'] = True
+            hier_cases.append(c2_)
+    # parameters fixed before the data are given (dose rows must still be read)
+    for n in (2, 3):
+        for dinds in (individuals(n, False, True, False, seed),
+                      individuals(n, False, 'infusion_first', False, seed)):
+            for fix in ([[1, 1.2]], [[3, 0.5]], [[0, 0.2], [2, 0.7]]):
+                dose_cases.append({
+                    'model': 'lib1', 'inds': dinds, 'id_type': 'int',
+                    'block_order': list(range(n)), 'interleave': 'grouped',
+                    'dosing': True, 'extras': {'duration_column': True},
+                    'pop': None, 'direct': True, 'fix': fix,
+                    'fix_before_data': True, 'seed': seed})
     # the mapping dictionary written in the other order (two outputs)
     for n in (1, 2, 3):
         inds = individuals(n, True, False, False, seed)
